@@ -101,7 +101,10 @@ func toNative(v value, rt reflect.Type) (reflect.Value, bool) {
 			return reflect.ValueOf(f).Convert(rt), true
 		}
 	case reflect.String:
-		if s, ok := v.(string); ok && !hasSymMarker(s) {
+		if s, ok := v.(string); ok {
+			// strings that embed an opaque marker are passed through: the
+			// natives below treat them as text (markers are checked at the
+			// sinks: keys, comparisons, number parsing)
 			return reflect.ValueOf(s), true
 		}
 	case reflect.Slice:
@@ -223,6 +226,16 @@ func (i *interpreter) tryErrorString(v iface) (s string, ok bool) {
 
 // dynamicIntrinsic handles the native table and name-pattern intrinsics.
 func dynamicIntrinsic(fr *frame, fn *ssa.Function, name string, args []value) (value, bool) {
+	switch name {
+	case "strconv.Itoa", "strconv.FormatInt", "strconv.FormatUint":
+		if s, ok := args[0].(symInt); ok && (len(args) == 1 || asInt64(args[1]) == 10) {
+			return fr.i.x.decMarker(s.t), true
+		}
+	case "strconv.ParseInt", "strconv.Atoi", "strconv.ParseUint":
+		if str, ok := args[0].(string); ok && hasSymMarker(str) {
+			panic(abortPath{"number parsing of a symbolic string"})
+		}
+	}
 	if nf, ok := natives[name]; ok {
 		rf := reflect.ValueOf(nf)
 		rt := rf.Type()
@@ -545,7 +558,7 @@ func extSortSort(fr *frame, args []value) value {
 // ---- packages that are never initialised / never interpreted ----
 
 var noInitPrefixes = []string{
-	"runtime", "reflect", "errors", "os", "syscall", "net", "sync", "internal/", "unsafe", "time", "fmt", "log", "io", "bufio",
+	"runtime", "reflect", "errors", "os", "syscall", "net", "sync", "internal/", "unsafe", "fmt", "log", "io", "bufio",
 	"encoding/json", "encoding/gob", "encoding/binary", "crypto", "hash", "math/rand", "math/big", "context", "path", "flag", "regexp",
 	"github.com/tendermint/go-amino", "github.com/vmihailenco", "github.com/tendermint/iavl", "github.com/tendermint/tm-db",
 	"github.com/syndtr", "github.com/go-kit", "github.com/davecgh", "github.com/btcsuite", "github.com/google/uuid",
